@@ -32,6 +32,7 @@ RULE = (
     "time; with acks=0 the value is None and the request was handed to a connection; anything else must be a failure; keyed sends land on the partition "
     "Java's murmur2 selects. non-trivial = a send transmitted in >=2 attempts, a partial (per-partition mixed) outcome, or a stop with a request in flight; "
     "distinct = distinct trace."
+    " Also: a send to a topic that does not exist fails within the attempt budget (not never), and on an unbatched producer no send is left pending once faults are lifted and nothing is outstanding (script 'unroutable': several sends to an unknown topic close together)."
 )
 ASSUMPTIONS = [
     "simkafka models a 0.10-era broker; oracles quote its acknowledgement ledger (DESIGN.md 2.4)",
